@@ -438,6 +438,38 @@ var evalGens = []evalGen{
 	}},
 }
 
+// readerGens: every way source text nests WITHOUT passing through a bracket
+// (prefix runs and their mixtures), prefix/bracket alternations, prefix runs
+// inside brackets, and plain bracket nesting for comparison.
+var readerGens = []evalGen{
+	{"quote-run", func(d int) string { return strings.Repeat("'", d) + "a" }},
+	{"quote-run-no-operand", func(d int) string { return strings.Repeat("'", d) }},
+	{"quote-run-spaced", func(d int) string { return strings.Repeat("' ", d) + "a" }},
+	{"quote-run-newlines", func(d int) string { return strings.Repeat("'\n", d) + "a" }},
+	{"quote-run-comments", func(d int) string { return strings.Repeat("';c\n", d) + "a" }},
+	{"quote-run-then-list", func(d int) string { return strings.Repeat("'", d) + "(a b)" }},
+	{"quote-run-then-funref", func(d int) string { return strings.Repeat("'", d) + "#'a" }},
+	{"exprlambda-run", func(d int) string { return strings.Repeat("#^", d) + "a" }},
+	{"exprlambda-run-then-list", func(d int) string { return strings.Repeat("#^", d) + "(list %)" }},
+	{"funref-run", func(d int) string { return strings.Repeat("#'", d) + "a" }},
+	{"quote-exprlambda-mix", func(d int) string { return strings.Repeat("'#^", d) + "a" }},
+	{"exprlambda-quote-mix", func(d int) string { return strings.Repeat("#^'", d) + "a" }},
+	{"quote-negative-mix", func(d int) string { return strings.Repeat("'-", d) + "1" }},
+	{"dash-run", func(d int) string { return strings.Repeat("-", d) + "1" }},
+	{"quote-paren-alternation", func(d int) string { return nestText("'(", ")", "a", d) }},
+	{"quote-brace-alternation", func(d int) string { return nestText("'[", "]", "a", d) }},
+	{"exprlambda-paren-alternation", func(d int) string { return nestText("#^(", ")", "a", d) }},
+	{"quote-run-inside-parens", func(d int) string { return "(" + strings.Repeat("'", d) + "a)" }},
+	{"exprlambda-run-inside-braces", func(d int) string { return "[" + strings.Repeat("#^", d) + "a]" }},
+	{"quote-run-inside-100-parens", func(d int) string {
+		return strings.Repeat("(", 100) + strings.Repeat("'", d) + "a" + strings.Repeat(")", 100)
+	}},
+	{"quote-run-after-hashbang", func(d int) string { return "#!/usr/bin/env elps\n" + strings.Repeat("'", d) + "a" }},
+	{"paren-nest", func(d int) string { return nestText("(", ")", "", d) }},
+	{"brace-nest", func(d int) string { return nestText("[", "]", "", d) }},
+	{"paren-unclosed", func(d int) string { return strings.Repeat("(", d) }},
+}
+
 // ---------------------------------------------------------------------------
 // cyclic containers, produced every way the language allows in-place mutation:
 // append!, assoc! and elpspath:?set!.  Each prelude defines `d` (the cyclic
